@@ -382,7 +382,7 @@ def mutate_to_ala(txt, resnum):
 ACIDS, BASES = ('COO', 'CYS', 'TYR'), ('HIS', 'LYS', 'ARG')
 
 
-def mk_end_state(name, icode_twin=None, params=None, mutant=None):
+def mk_end_state(name, icode_twin=None, params=None, mutant=None, first_model_without=None):
     """sign and bound audit of every determinant the whole pipeline finally
     records (after iterations, coupling effects and the coupling probe), per
     conformation; structure under a symbolic grid shift"""
@@ -394,6 +394,11 @@ def mk_end_state(name, icode_twin=None, params=None, mutant=None):
             src, dst = icode_twin
             txt = ''.join((l[:22] + '%4d' % dst + 'A' + l[27:] + '\n') if (l.startswith('ATOM') and int(l[22:26]) == src) else (l + '\n')
                           for l in txt.split('\n') if l)
+        if first_model_without is not None:
+            # MODEL 1 lacks the residue before an aspartate, which is therefore a chain start there (its side chain is penalised
+            # through its own N+); in MODEL 2 the same aspartate is an ordinary, reported residue
+            short = '\n'.join(l for l in txt.split('\n') if l and not (l.startswith('ATOM') and int(l[22:26]) == first_model_without)) + '\n'
+            txt = M.models(short, txt)
         if mutant:
             # sequence micro-heterogeneity: MODEL 1 has an alanine where MODEL 2 has the titratable residue
             txt = M.models(mutate_to_ala(txt, mutant), txt)
@@ -498,6 +503,12 @@ def obligations(tier):
                               bounds='two-MODEL file from micro-structure %s: residue %d is an alanine in MODEL 1; Nmin/Nmax lowered to 6/30; symbolic grid shift t in [0,2.509]' % (name, res),
                               claim_doc='as O13, in particular: within each conformation the two Coulomb determinants of an acid-base side-chain pair are equal and opposite (after averaging too)',
                               max_paths=5000, wall_s=170))
+    for name, res in ([('pair_ASP_ARG', 28)] if tier == 'quick' else [('pair_ASP_ARG', 28), ('pair_LYS_ASP', 59), ('pep8', 28)]):
+        obs.append(Obligation('O13-pipeline-end-state[%s,MODEL1 without residue %d,buried]' % (name, res), mk_end_state(name, None, M_BURIED, None, res),
+                              code=['propka/run.py:single (whole pipeline)', 'propka/conformation_container.py:ConformationContainer.coupling_effects', 'propka/conformation_container.py:ConformationContainer.calculate_pka',
+                                    'propka/group.py:Group.remove_determinants'],
+                              bounds='two-MODEL file from %s: MODEL 1 lacks residue %d, so that the following aspartate starts a chain there; Nmin/Nmax 6/30; symbolic grid shift' % (name, res),
+                              claim_doc='as O13 in every conformation: what was penalised in one conformation is an ordinary group in the other', max_paths=5000, wall_s=170))
     fx = [('pair_ASP_ARG', None), ('pair_ASP_ARG', (30, 29)), ('pair_GLU_ARG_TYR', None), ('pair_LYS_ASP', None), ('complex_MTX', None), ('complex_MTX2', None), ('pair_LYS_ASP_2CL', None)]
     if tier == 'thorough':
         fx += [('pep8', None), ('pep8', (30, 29)), ('pair_ASP_ASP', None), ('nterm_ASP_LYS', None), ('lig_MTX', None), ('pair_CYS_CYS_bridge', None)]
